@@ -111,6 +111,10 @@ pub enum Ty {
     Opaque(String),
     /// a local closure bound by `let`
     Fn(Vec<Ty>, Box<Ty>),
+    /// `&[T]` / `&mut [T]`, modelled as a list
+    Slice(Box<Ty>),
+    /// `Result<T, E>`, modelled as the sum `T + E`
+    Result(Box<Ty>, Box<Ty>),
     /// a type of the `extern` table: an opaque Coq type with whitelisted accessor methods
     Extern(String),
 }
@@ -134,6 +138,8 @@ impl Ty {
             Ty::Infer => "_".into(),
             Ty::Opaque(w) => format!("<unsupported type: {}>", w),
             Ty::Extern(n) => n.clone(),
+            Ty::Slice(t) => format!("[{}]", t.show()),
+            Ty::Result(t, e) => format!("Result<{}, {}>", t.show(), e.show()),
             Ty::Fn(a, r) => format!("fn({}) -> {}", a.iter().map(|t| t.show()).collect::<Vec<_>>().join(", "), r.show()),
         }
     }
@@ -153,6 +159,8 @@ pub fn join(a: &Ty, b: &Ty) -> R<Ty> {
         (Ty::Param(x), Ty::Param(y)) if x == y => a.clone(),
         (Ty::Extern(x), Ty::Extern(y)) if x == y => a.clone(),
         (Ty::Option(x), Ty::Option(y)) => Ty::Option(Box::new(join(x, y)?)),
+        (Ty::Slice(x), Ty::Slice(y)) => Ty::Slice(Box::new(join(x, y)?)),
+        (Ty::Result(x, e), Ty::Result(y, f)) => Ty::Result(Box::new(join(x, y)?), Box::new(join(e, f)?)),
         (Ty::Range(x), Ty::Range(y)) => Ty::Range(Box::new(join(x, y)?)),
         (Ty::RangeIncl(x), Ty::RangeIncl(y)) => Ty::RangeIncl(Box::new(join(x, y)?)),
         (Ty::Tuple(x), Ty::Tuple(y)) if x.len() == y.len() => {
@@ -233,6 +241,8 @@ pub struct FnInfo {
     pub mut_params: Vec<bool>,
     /// macro parameters the definition depends on (leading arguments)
     pub mvars: Vec<String>,
+    /// type parameters of the function, in order (to map a turbofish onto `assoc_params`)
+    pub generic_names: Vec<String>,
     /// the (virtual) file of the definition
     pub file: String,
     pub ret: Ty,
@@ -332,6 +342,8 @@ impl Tables {
             Ty::Range(t) | Ty::RangeIncl(t) => format!("({} * {})", self.coq_ty(t)?, self.coq_ty(t)?),
             Ty::Infer => "_".into(),
             Ty::Opaque(w) => return Err(format!("unsupported type: {}", w)),
+            Ty::Slice(t) => format!("(list {})", self.coq_ty(t)?),
+            Ty::Result(t, e) => format!("({} + {})", self.coq_ty(t)?, self.coq_ty(e)?),
             Ty::Fn(a, r) => format!("({} -> {})", a.iter().map(|t| self.coq_ty(t)).collect::<R<Vec<_>>>()?.join(" -> "), self.coq_ty(r)?),
             Ty::Extern(n) => match self.externs.get(n) {
                 Some(e) => e.coq_ty.clone(),
@@ -405,6 +417,8 @@ pub fn subst_ty(t: &Ty, m: &BTreeMap<String, Ty>) -> Ty {
         Ty::RangeIncl(x) => Ty::RangeIncl(Box::new(subst_ty(x, m))),
         Ty::Tuple(xs) => Ty::Tuple(xs.iter().map(|x| subst_ty(x, m)).collect()),
         Ty::Fn(a, r) => Ty::Fn(a.iter().map(|x| subst_ty(x, m)).collect(), Box::new(subst_ty(r, m))),
+        Ty::Slice(x) => Ty::Slice(Box::new(subst_ty(x, m))),
+        Ty::Result(x, e) => Ty::Result(Box::new(subst_ty(x, m)), Box::new(subst_ty(e, m))),
         _ => t.clone(),
     }
 }
